@@ -23,7 +23,14 @@ extern int rt_assert_failed;
 static inline fp80_t FP80_POW2(int e){ fp80_t r=1; while(e>0){r*=2;e--;} while(e<0){r/=2;e++;} return r; }
 /* C++ allows nullptr - nullptr and comparing equal pointers of any provenance; keep CBMC's same-object checks for the rest */
 #define RT_PTRDIFF(p, q) (((char*)(p) == (char*)(q)) ? 0L : (long)((char*)(p) - (char*)(q)))
-#define RT_PTRREL(p, op, q, eq) (((char*)(p) == (char*)(q)) ? (eq) : ((char*)(p) op (char*)(q)))
+#ifdef __CPROVER__
+/* relational pointer comparison: compared as addresses (no fatal built-in check); a pointer formed beyond one-past-the-end of its
+   object is standard-level UB that no sanitizer confirms - it is recorded as a non-fatal UBNOTE, never as a violation */
+#define RT_UBNOTE(p) (__CPROVER_assert((unsigned long)__CPROVER_POINTER_OFFSET(p) <= (unsigned long)__CPROVER_OBJECT_SIZE(p), "UBNOTE: relational comparison uses a pointer formed beyond one-past-the-end of its object"), 0)
+#define RT_PTRREL(p, op, q, eq) (RT_UBNOTE(p), RT_UBNOTE(q), ((unsigned long)(char*)(p) op (unsigned long)(char*)(q)))
+#else
+#define RT_PTRREL(p, op, q, eq) ((unsigned long)(char*)(p) op (unsigned long)(char*)(q))
+#endif
 /* checked narrowing helpers: does the W-bit value v, read as signed, fit B signed bits? */
 #define RT_SFITS64(v, B) ((unsigned long)((unsigned long)(v) + (1UL << ((B) - 1))) < (1UL << (B)))
 #define RT_SFITS128(v, B) ((unsigned __int128)((unsigned __int128)(v) + (((unsigned __int128)1) << ((B) - 1))) < (((unsigned __int128)1) << (B)))
